@@ -370,7 +370,7 @@ class DATE_AND_TIME(ElementaryDataType):
     """
 
     code = 0xCF  #: 0xCF
-    size = 8
+    size = 6  # UDINT time of day + UINT date
 
     @classmethod
     def encode(cls, time: int, date: int, *args, **kwargs) -> bytes:
